@@ -167,6 +167,11 @@ func TestC02(t *testing.T) {
 				}
 			}
 			models[l].merge(models[r], cfgs[r])
+			// the argument is not used again in the tree: mutate and clear it, the receiver must not notice
+			sv := d.clamp(m.Value(d.lo + (d.hi-d.lo)/2))
+			_ = parts[r].AddWithCount(sv, 3)
+			_ = parts[r].Add(-sv)
+			parts[r].Clear()
 			if msg := checkAgainstModel(parts[l], cfgs[l], models[l], bud); msg != "" {
 				t.Fatalf("C02: after merging part %d into part %d (%s): %s", r, l, cfgs[l], msg)
 			}
